@@ -623,7 +623,9 @@ def spec_remove_consume():
     def on_return(ex, p):
         base, es, ln = _vec_syms(ex, p, "O:vecraw")
         cps = events(p, "copy")
-        obs = [("exactly one block move", "true" if len(cps) == 1 else "false")]
+        obs = [("at most one block move", "true" if len(cps) <= 1 else "false")]
+        if not cps:
+            obs.append(("no block move only when there is nothing behind the removed element (or elements are zero-sized)", OR("(= n2 (bvsub %s %s))" % (ln, bvconst(1)), "(= %s %s)" % (es, bvconst(0)))))
         if len(cps) == 1:
             dst = "(bvadd %s (bvmul %s n2))" % (base, es)
             obs.append(_copy_ob(ex, cps[0], "(bvadd %s %s)" % (dst, es), dst, "(bvmul %s (bvsub (bvsub %s %s) n2))" % (es, ln, bvconst(1)),
@@ -677,7 +679,9 @@ def spec_move_elements_at():
     def on_return(ex, p):
         base, es, ln = _vec_syms(ex, p, "O:vecraw")
         cps = events(p, "copy")
-        obs = [("exactly one block move", "true" if len(cps) == 1 else "false")]
+        obs = [("at most one block move", "true" if len(cps) <= 1 else "false")]
+        if not cps:
+            obs.append(("no block move only when nothing has to move", OR("(= a4 %s)" % bvconst(0), "(= a2 a3)", "(= %s %s)" % (es, bvconst(0)))))
         if len(cps) == 1:
             obs.append(_copy_ob(ex, cps[0], "(bvadd %s (bvmul %s a2))" % (base, es), "(bvadd %s (bvmul %s a3))" % (base, es), "(bvmul %s a4)" % es,
                                 "moves exactly `len` elements from src_index to dst_index"))
@@ -704,7 +708,9 @@ def spec_insert_unchecked(push):
         idx = ln if push else "a2"
         slot = "(bvadd %s (bvmul %s %s))" % (base, es, idx)
         if not push:
-            obs.append(("exactly one block move", "true" if len(cps) == 1 else "false"))
+            obs.append(("at most one block move", "true" if len(cps) <= 1 else "false"))
+            if not cps:
+                obs.append(("no block move only when inserting at the end (or elements are zero-sized)", OR("(= a2 %s)" % ln, "(= %s %s)" % (es, bvconst(0)))))
             if len(cps) == 1:
                 obs.append(_copy_ob(ex, cps[0], slot, "(bvadd %s %s)" % (slot, es), "(bvmul %s (bvsub %s %s))" % (es, ln, idx),
                                     "insert shifts exactly the (len - index) elements from the insertion slot up by one element, using the storage pointer obtained after reserving"))
